@@ -1482,6 +1482,259 @@ Section Conf.
       vm_compute in Hin. destruct Hin as [Hin|[Hin|[]]]; injection Hin as <- <-; reflexivity.
     - rewrite F_statement. reflexivity.
   Qed.
+
+  Lemma ev_kids e a s r k1 k2 : E e a s (POk r k1) -> k1 = k2 -> E e a s (POk r k2).
+  Proof. now intros H <-. Qed.
+
+  (* ---- numbers: truth_budget_term ~ (";" ~ truth_budget_term)* ~ ";"* on a printed list ---- *)
+  Definition tbt_node (m : str) : tree := Node (ss "truth_budget_term") m [].
+  Definition nums_text (n : str) (ns : list str) : str := n ++ concat (map (fun m => 59 :: m) ns).
+
+  Lemma digit_cases c : is_ascii_digit c = true -> In c [48; 49; 50; 51; 52; 53; 54; 55; 56; 57].
+  Proof.
+    unfold is_ascii_digit. intros H. apply andb_true_iff in H as [H1 H2]. apply N.leb_le in H1, H2.
+    cbn [In]. lia.
+  Qed.
+
+  Lemma num_char_facts c : num_char c = true -> numc c = true /\ isws c = false /\ (36 =? c) = false.
+  Proof.
+    unfold num_char. intros H. apply orb_true_iff in H as [H|H].
+    - apply digit_cases in H. cbn [In] in H.
+      repeat (destruct H as [<-|H]; [unfold numc; repeat split; ascii|]). destruct H.
+    - apply N.eqb_eq in H. subst c. unfold numc. repeat split; ascii.
+  Qed.
+
+  Lemma num_ok_shape m :
+    num_ok m = true ->
+    exists d ds, m = d :: ds /\ numc d = true /\ forallb numc ds = true /\ isws d = false /\ memb 36 m = false.
+  Proof.
+    unfold num_ok. destruct m as [|d ds]; [discriminate|]. intros H. exists d, ds.
+    assert (Hall : forall l, forallb num_char l = true -> forallb numc l = true /\ memb 36 l = false).
+    { induction l as [|c l IH]; [split; reflexivity|]. cbn [forallb memb]. intros Hl.
+      apply andb_true_iff in Hl as [Hc Hl]. destruct (num_char_facts c Hc) as [H1 [_ H3]]. destruct (IH Hl) as [H4 H5].
+      now rewrite H1, H3, H4, H5. }
+    pose proof H as H'. cbn [forallb] in H. apply andb_true_iff in H as [Hd Hds].
+    destruct (num_char_facts d Hd) as [H1 [H2 _]]. destruct (Hall ds Hds) as [H4 _]. destruct (Hall (d :: ds) H') as [_ H5].
+    repeat split; assumption.
+  Qed.
+
+  (* the character after a printed number list: `%` or `$` *)
+  Definition num_close (cl : N) : bool := negb (numc cl) && negb (59 =? cl) && negb (isws cl).
+  Lemma num_close_37 : num_close 37 = true. Proof. unfold num_close, numc. ascii. Qed.
+  Lemma num_close_36 : num_close 36 = true. Proof. unfold num_close, numc. ascii. Qed.
+
+  Lemma nums_tail_facts ns cl k :
+    num_close cl = true ->
+    let R := concat (map (fun m => 59 :: m) ns) ++ cl :: k in
+    not_numc_head R = true /\ dropws R = R.
+  Proof.
+    unfold num_close. intros H. apply andb_true_iff in H as [H Hw]. apply andb_true_iff in H as [Hn _].
+    apply negb_true_iff in Hw. destruct ns as [|m ns]; cbn [map concat app not_numc_head].
+    - split; [exact Hn | now apply dropws_nows].
+    - split; [unfold numc; ascii | apply dropws_nows; ascii].
+  Qed.
+
+  Lemma ev_XN_step d ds R :
+    numc d = true -> forallb numc ds = true -> isws d = false -> not_numc_head R = true ->
+    E XN NonAtomic (59 :: (d :: ds) ++ R) (POk R [tbt_node (d :: ds)]).
+  Proof.
+    intros Hd Hds Hw HR. change [tbt_node (d :: ds)] with ([] ++ [] ++ [tbt_node (d :: ds)]).
+    eapply ev_seq_ok; [apply ev_lit1_ok | | exact (ev_tbt d ds R Hd Hds HR)].
+    pose proof (ev_skip_na ((d :: ds) ++ R)) as Hs. cbn [app] in Hs. rewrite (dropws_nows d _ Hw) in Hs. exact Hs.
+  Qed.
+
+  Lemma ev_XN_rep ns cl k :
+    forallb num_ok ns = true -> num_close cl = true ->
+    Erep XN NonAtomic (concat (map (fun m => 59 :: m) ns) ++ cl :: k) (POk (cl :: k) (map tbt_node ns)).
+  Proof.
+    intros Hns Hcl. induction ns as [|m ns IH]; cbn [map concat app].
+    - pose proof Hcl as Hcl'. unfold num_close in Hcl'. apply andb_true_iff in Hcl' as [H Hw].
+      apply andb_true_iff in H as [_ H59]. apply negb_true_iff in Hw, H59.
+      eapply ev_rep_nil.
+      + pose proof (ev_skip_na (cl :: k)) as Hs. rewrite (dropws_nows cl k Hw) in Hs. exact Hs.
+      + apply ev_seq_fail1, ev_lit1_fail. exact H59.
+    - cbn [forallb] in Hns. apply andb_true_iff in Hns as [Hm Hns].
+      destruct (num_ok_shape m Hm) as [d [ds [-> [Hd [Hds [Hw _]]]]]].
+      destruct (nums_tail_facts ns cl k Hcl) as [HR _].
+      rewrite <- app_assoc.
+      change (tbt_node (d :: ds) :: map tbt_node ns) with ([] ++ [tbt_node (d :: ds)] ++ map tbt_node ns).
+      eapply ev_rep_cons; [| exact (ev_XN_step d ds _ Hd Hds Hw HR) | exact (IH Hns)].
+      pose proof (ev_skip_na (59 :: (d :: ds) ++ concat (map (fun m => 59 :: m) ns) ++ cl :: k)) as Hs.
+      rewrite dropws_nows in Hs by ascii. exact Hs.
+  Qed.
+
+  Lemma ev_number_list n ns cl k :
+    num_ok n = true -> forallb num_ok ns = true -> num_close cl = true ->
+    E number_list NonAtomic (nums_text n ns ++ cl :: k) (POk (cl :: k) (map tbt_node (n :: ns))).
+  Proof.
+    intros Hn Hns Hcl. unfold nums_text. rewrite <- app_assoc.
+    destruct (num_ok_shape n Hn) as [d [ds [-> [Hd [Hds [Hw _]]]]]].
+    destruct (nums_tail_facts ns cl k Hcl) as [HR HdR].
+    set (R := concat (map (fun m => 59 :: m) ns) ++ cl :: k) in *.
+    pose proof Hcl as Hcl'. unfold num_close in Hcl'. apply andb_true_iff in Hcl' as [H Hwc].
+    apply andb_true_iff in H as [_ H59]. apply negb_true_iff in Hwc, H59.
+    eapply (ev_kids _ _ _ _ ([tbt_node (d :: ds)] ++ [] ++ (map tbt_node ns ++ [] ++ [])));
+      [|cbn [app map]; now rewrite app_nil_r].
+    unfold number_list.
+    eapply ev_seq_ok; [exact (ev_tbt d ds R Hd Hds HR) | |].
+    { pose proof (ev_skip_na R) as Hs. rewrite HdR in Hs. exact Hs. }
+    eapply ev_seq_ok; [| | apply ev_star_nil, ev_lit1_fail; exact H59].
+    - (* ( ";" ~ truth_budget_term )* *)
+      unfold R. destruct ns as [|m ns]; cbn [map concat app].
+      + apply ev_star_nil, ev_seq_fail1, ev_lit1_fail. exact H59.
+      + cbn [forallb] in Hns. apply andb_true_iff in Hns as [Hm Hns].
+        destruct (num_ok_shape m Hm) as [d2 [ds2 [-> [Hd2 [Hds2 [Hw2 _]]]]]].
+        destruct (nums_tail_facts ns cl k Hcl) as [HR2 _].
+        rewrite <- app_assoc.
+        change (tbt_node (d2 :: ds2) :: map tbt_node ns) with ([tbt_node (d2 :: ds2)] ++ map tbt_node ns).
+        eapply ev_star_cons; [exact (ev_XN_step d2 ds2 _ Hd2 Hds2 Hw2 HR2) | exact (ev_XN_rep ns cl k Hns Hcl)].
+    - pose proof (ev_skip_na (cl :: k)) as Hs. rewrite (dropws_nows cl k Hwc) in Hs. exact Hs.
+  Qed.
+
+  Lemma nums_text_nows n ns R : num_ok n = true -> dropws (nums_text n ns ++ R) = nums_text n ns ++ R.
+  Proof.
+    intros Hn. destruct (num_ok_shape n Hn) as [d [ds [-> [_ [_ [Hw _]]]]]]. unfold nums_text.
+    rewrite <- app_assoc. cbn [app]. now apply dropws_nows.
+  Qed.
+
+  (* ---- truth = { "%" ~ (...) ~ "%" } ---- *)
+  Definition truth_text (n : str) (ns : list str) : str := 37 :: nums_text n ns ++ [37].
+
+  Lemma ev_truth n ns k :
+    num_ok n = true -> forallb num_ok ns = true ->
+    E (PRef (ss "truth")) NonAtomic (truth_text n ns ++ k)
+      (POk k [Node (ss "truth") (truth_text n ns) (map tbt_node (n :: ns))]).
+  Proof.
+    intros Hn Hns. unfold truth_text.
+    assert (Htxt : (37 :: nums_text n ns ++ [37]) ++ k = 37 :: nums_text n ns ++ 37 :: k)
+      by (cbn [app]; now rewrite <- app_assoc).
+    assert (Hb : E (PSeq (PStr [37]) (PSeq number_list (PStr [37]))) NonAtomic (37 :: nums_text n ns ++ 37 :: k)
+                   (POk k ([] ++ [] ++ (map tbt_node (n :: ns) ++ [] ++ [])))).
+    { eapply ev_seq_ok; [apply ev_lit1_ok | |].
+      { pose proof (ev_skip_na (nums_text n ns ++ 37 :: k)) as Hs. rewrite (nums_text_nows n ns _ Hn) in Hs. exact Hs. }
+      eapply ev_seq_ok; [exact (ev_number_list n ns 37 k Hn Hns num_close_37) | | apply ev_lit1_ok].
+      pose proof (ev_skip_na (37 :: k)) as Hs. rewrite dropws_nows in Hs by ascii. exact Hs. }
+    pose proof (ev_ref ucls G n0 (ss "truth") _ NonAtomic _ _ eq_refl Hb) as H.
+    cbn [pr_mod rule emits app] in H. rewrite app_nil_r in H.
+    rewrite <- Htxt in H. now rewrite consumed_app in H.
+  Qed.
+
+  Lemma ev_truth_fail s : head_is 37 s = false -> E (PRef (ss "truth")) NonAtomic s PFail.
+  Proof.
+    intros H. refine (ev_ref ucls G n0 (ss "truth") _ NonAtomic s PFail eq_refl _).
+    apply ev_seq_fail1, ev_lit1_fail, H.
+  Qed.
+
+  (* ---- budget = { "$" ~ budget_content ~ "$" } ---- *)
+  Definition budget_inner (b : list str) : str := match b with [] => [] | n :: ns => nums_text n ns end.
+  Definition budget_text (b : list str) : str := 36 :: budget_inner b ++ [36].
+
+  Lemma budget_inner_nows b k :
+    forallb num_ok b = true -> dropws (budget_inner b ++ 36 :: k) = budget_inner b ++ 36 :: k.
+  Proof.
+    destruct b as [|n ns]; cbn [budget_inner app forallb]; intros H.
+    - apply dropws_nows. ascii.
+    - apply andb_true_iff in H as [Hn _]. exact (nums_text_nows n ns _ Hn).
+  Qed.
+
+  Lemma ev_budget b k :
+    forallb num_ok b = true ->
+    E (PRef (ss "budget")) NonAtomic (budget_text b ++ k)
+      (POk k [Node (ss "budget") (budget_text b) [Node (ss "budget_content") (budget_inner b) (map tbt_node b)]]).
+  Proof.
+    intros Hb. unfold budget_text.
+    assert (Htxt : (36 :: budget_inner b ++ [36]) ++ k = 36 :: budget_inner b ++ 36 :: k)
+      by (cbn [app]; now rewrite <- app_assoc).
+    assert (Hc : E (PRef (ss "budget_content")) NonAtomic (budget_inner b ++ 36 :: k)
+                   (POk (36 :: k) [Node (ss "budget_content") (budget_inner b) (map tbt_node b)])).
+    { destruct b as [|n ns]; cbn [budget_inner map app].
+      - assert (Hnl : E number_list NonAtomic (36 :: k) PFail).
+        { apply ev_seq_fail1, ev_tbt_fail. cbn [not_numc_head]. unfold numc. ascii. }
+        pose proof (ev_ref ucls G n0 (ss "budget_content") _ NonAtomic (36 :: k) _ eq_refl
+                      (ev_choice_r _ _ _ _ _ _ _ _ Hnl (ev_str ucls G n0 [] NonAtomic (36 :: k)))) as H.
+        cbn [pr_mod rule emits starts length drop] in H.
+        now rewrite (consumed_app [] (36 :: k) : consumed (36 :: k) (36 :: k) = []) in H.
+      - cbn [forallb] in Hb. apply andb_true_iff in Hb as [Hn Hns].
+        pose proof (ev_ref ucls G n0 (ss "budget_content") _ NonAtomic (nums_text n ns ++ 36 :: k) _ eq_refl
+                      (ev_choice_l _ _ _ _ _ _ _ _ _ (ev_number_list n ns 36 k Hn Hns num_close_36))) as H.
+        cbn [pr_mod rule emits] in H. now rewrite consumed_app in H. }
+    assert (Hbody : E (PSeq (PStr [36]) (PSeq (PRef (ss "budget_content")) (PStr [36]))) NonAtomic
+                      (36 :: budget_inner b ++ 36 :: k)
+                      (POk k ([] ++ [] ++ ([Node (ss "budget_content") (budget_inner b) (map tbt_node b)] ++ [] ++ [])))).
+    { eapply ev_seq_ok; [apply ev_lit1_ok | |].
+      { pose proof (ev_skip_na (budget_inner b ++ 36 :: k)) as Hs. rewrite (budget_inner_nows b k Hb) in Hs. exact Hs. }
+      eapply ev_seq_ok; [exact Hc | | apply ev_lit1_ok].
+      pose proof (ev_skip_na (36 :: k)) as Hs. rewrite dropws_nows in Hs by ascii. exact Hs. }
+    pose proof (ev_ref ucls G n0 (ss "budget") _ NonAtomic _ _ eq_refl Hbody) as H.
+    cbn [pr_mod rule emits app] in H. rewrite <- Htxt in H. now rewrite consumed_app in H.
+  Qed.
+
+  (* ---- stamp = { ":" ~ (!":" ~ ANY)+ ~ ":" } ---- *)
+  Definition stamp_inner (c : N) : bool := negb (58 =? c) && negb (isws c) && negb (36 =? c).
+  Notation ZS := (PSeq (PNot (PStr [58])) PAny).
+
+  Lemma ev_ZS_step c r : stamp_inner c = true -> E ZS NonAtomic (c :: r) (POk r []).
+  Proof.
+    unfold stamp_inner. intros H. apply andb_true_iff in H as [H _]. apply andb_true_iff in H as [H58 Hw].
+    apply negb_true_iff in H58, Hw.
+    change (POk r []) with (POk r ([] ++ [] ++ [])).
+    eapply ev_seq_ok; [apply ev_not_fail, ev_lit1_fail; exact H58 | | apply (ev_any ucls G n0 NonAtomic (c :: r))].
+    pose proof (ev_skip_na (c :: r)) as Hs. rewrite (dropws_nows c r Hw) in Hs. exact Hs.
+  Qed.
+  Lemma ev_ZS_stop r : E ZS NonAtomic (58 :: r) PFail.
+  Proof. apply ev_seq_fail1. eapply ev_not_ok. apply ev_lit1_ok. Qed.
+
+  Lemma stamp_tail_nows bs k : forallb stamp_inner bs = true -> dropws (bs ++ 58 :: k) = bs ++ 58 :: k.
+  Proof.
+    destruct bs as [|c bs]; cbn [app forallb]; intros H; [apply dropws_nows; ascii|].
+    apply andb_true_iff in H as [H _]. unfold stamp_inner in H. apply andb_true_iff in H as [H _].
+    apply andb_true_iff in H as [_ Hw]. apply negb_true_iff in Hw. now apply dropws_nows.
+  Qed.
+
+  Lemma ev_ZS_rep bs k : forallb stamp_inner bs = true -> Erep ZS NonAtomic (bs ++ 58 :: k) (POk (58 :: k) []).
+  Proof.
+    induction bs as [|c bs IH]; intros H.
+    - eapply ev_rep_nil; [|apply ev_ZS_stop]. pose proof (ev_skip_na ([] ++ 58 :: k)) as Hs.
+      rewrite (stamp_tail_nows [] k eq_refl) in Hs. exact Hs.
+    - pose proof (stamp_tail_nows (c :: bs) k H) as Hd. cbn [forallb] in H. apply andb_true_iff in H as [Hc H].
+      change (POk (58 :: k) []) with (POk (58 :: k) ([] ++ [] ++ [])).
+      eapply ev_rep_cons; [| exact (ev_ZS_step c (bs ++ 58 :: k) Hc) | exact (IH H)].
+      pose proof (ev_skip_na ((c :: bs) ++ 58 :: k)) as Hs. rewrite Hd in Hs. exact Hs.
+  Qed.
+
+  Lemma ev_stamp b bs k :
+    stamp_inner b = true -> forallb stamp_inner bs = true ->
+    E (PRef (ss "stamp")) NonAtomic ((58 :: (b :: bs) ++ [58]) ++ k) (POk k [Node (ss "stamp") (58 :: (b :: bs) ++ [58]) []]).
+  Proof.
+    intros Hb Hbs.
+    assert (Htxt : (58 :: (b :: bs) ++ [58]) ++ k = 58 :: (b :: bs) ++ 58 :: k)
+      by (cbn [app]; now rewrite <- app_assoc).
+    assert (Hall : forallb stamp_inner (b :: bs) = true) by (cbn [forallb]; now rewrite Hb, Hbs).
+    assert (Hplus : E (PPlus ZS) NonAtomic ((b :: bs) ++ 58 :: k) (POk (58 :: k) ([] ++ [] ++ []))).
+    { apply ev_plus. eapply ev_seq_ok; [exact (ev_ZS_step b (bs ++ 58 :: k) Hb) | |].
+      { pose proof (ev_skip_na (bs ++ 58 :: k)) as Hs. rewrite (stamp_tail_nows bs k Hbs) in Hs. exact Hs. }
+      destruct bs as [|c bs].
+      - apply ev_star_nil, ev_ZS_stop.
+      - cbn [forallb] in Hbs. apply andb_true_iff in Hbs as [Hc Hbs].
+        change (@nil tree) with (@nil tree ++ []).
+        eapply ev_star_cons; [exact (ev_ZS_step c (bs ++ 58 :: k) Hc) | exact (ev_ZS_rep bs k Hbs)]. }
+    assert (Hbody : E (PSeq (PStr [58]) (PSeq (PPlus ZS) (PStr [58]))) NonAtomic (58 :: (b :: bs) ++ 58 :: k)
+                      (POk k [])).
+    { eapply ev_kids.
+      - eapply ev_seq_ok; [apply ev_lit1_ok | |].
+        { pose proof (ev_skip_na ((b :: bs) ++ 58 :: k)) as Hs. rewrite (stamp_tail_nows (b :: bs) k Hall) in Hs. exact Hs. }
+        eapply ev_seq_ok; [exact Hplus | | apply ev_lit1_ok].
+        pose proof (ev_skip_na (58 :: k)) as Hs. rewrite dropws_nows in Hs by ascii. exact Hs.
+      - reflexivity. }
+    pose proof (ev_ref ucls G n0 (ss "stamp") _ NonAtomic _ _ eq_refl Hbody) as H.
+    cbn [pr_mod rule emits] in H. rewrite <- Htxt in H. now rewrite consumed_app in H.
+  Qed.
+
+  Lemma ev_stamp_fail s : head_is 58 s = false -> E (PRef (ss "stamp")) NonAtomic s PFail.
+  Proof.
+    intros H. refine (ev_ref ucls G n0 (ss "stamp") _ NonAtomic s PFail eq_refl _).
+    apply ev_seq_fail1, ev_lit1_fail, H.
+  Qed.
 End Conf.
 
 (* ------------------------------------------------------------------------------------------ *)
